@@ -168,3 +168,157 @@ impl Env {
         sim.step("Restart", json!({}), |_| Ok(()));
     }
 }
+
+// ---------------------------------------------------------------------------------------------
+// Filter pipeline: ticks, honest answers of the filter / blocks-proof / sync protocols, set_scripts
+// ---------------------------------------------------------------------------------------------
+use crate::service::{BlockFilterRpc, ScriptStatus as RpcScriptStatus, ScriptType as RpcScriptType, SetScriptsCommand};
+
+impl Env {
+    /// token: 0 filters, 1 filter hashes, 2 check points.  `elapsed`: the 15 s re-ask window has passed.
+    pub fn filter_tick(&mut self, sim: &mut Sim, token: u64, elapsed: bool) {
+        if elapsed {
+            *sim.client_mut().filter.last_ask_time.write().unwrap() = None;
+        }
+        sim.step("FilterTick", json!({"token": token, "elapsed": elapsed}), |c| c.notify(Proto::Filter, token));
+    }
+
+    pub fn idle_tick(&mut self, sim: &mut Sim) {
+        sim.step("IdleTick", json!({}), |c| c.notify(Proto::Lc, 2));
+    }
+
+    pub fn fetch_tick(&mut self, sim: &mut Sim) {
+        sim.step("FetchTick", json!({}), |c| c.notify(Proto::Lc, 1));
+    }
+
+    /// Answers the oldest outstanding filter-protocol request of peer i honestly.
+    pub fn answer_filter(&mut self, sim: &mut Sim, i: usize, interval: u64) -> bool {
+        let p = self.peers[i].idx;
+        let (kind, start) = match sim.take_request(p, |s| sim::filter_request(s)) {
+            Some(x) => x,
+            None => return false,
+        };
+        let server = self.peers[i].server.clone();
+        let msg = match kind {
+            "filters" => server.block_filters(&sim.chain, start),
+            "hashes" => server.block_filter_hashes(&sim.chain, start),
+            _ => server.block_filter_check_points(&sim.chain, start, interval),
+        };
+        let tipn = sim.chain.blocks[server.tip].num;
+        match msg {
+            Some(m) => {
+                let ev = match kind {
+                    "filters" => "Filters",
+                    "hashes" => "FilterHashes",
+                    _ => "CheckPoints",
+                };
+                let n = match kind {
+                    "filters" => std::cmp::min(tipn + 1 - start, server.filters_batch as u64),
+                    "hashes" => std::cmp::min(tipn + 1 - start, server.hashes_batch as u64),
+                    _ => 0,
+                };
+                let mut args = json!({"p": pname(p), "start": start, "n": n, "tip": server.tip + 1, "kind": "honest"});
+                if kind == "filters" {
+                    let chain = sim.chain.chain_of(server.tip);
+                    let ids: Vec<usize> = (start..start + n).map(|h| chain[h as usize] + 1).collect();
+                    args["fs"] = json!(ids);
+                    args["hs"] = json!(ids);
+                }
+                sim.step(ev, args, |c| c.deliver(Proto::Filter, p, m.as_bytes()));
+            }
+            None => {
+                sim.emit(json!({"ev": "NoAnswer", "a": {"p": pname(p), "kind": kind, "start": start},
+                    "st": sim.state(), "out": {"ban": [], "drop": [], "sent": []}}));
+            }
+        }
+        true
+    }
+
+    pub fn answer_blocks_proof(&mut self, sim: &mut Sim, i: usize) -> bool {
+        let p = self.peers[i].idx;
+        let req = match sim.take_request(p, sim::as_get_blocks_proof) {
+            Some(r) => r,
+            None => return false,
+        };
+        let server = self.peers[i].server.clone();
+        let msg = server.blocks_proof(&sim.chain, &req);
+        let hs: Vec<i64> = req.block_hashes().into_iter().map(|h| hid(&sim.chain, &h)).collect();
+        let on_chain = server.on_chain(&sim.chain, &req.last_hash()).is_some();
+        let args = json!({"p": pname(p), "last": hid(&sim.chain, &req.last_hash()), "hs": hs, "tip": server.tip + 1,
+            "onChain": on_chain, "kind": "honest"});
+        sim.step("BlocksProof", args, |c| c.deliver(Proto::Lc, p, msg.as_bytes()));
+        true
+    }
+
+    pub fn answer_txs_proof(&mut self, sim: &mut Sim, i: usize) -> bool {
+        let p = self.peers[i].idx;
+        let req = match sim.take_request(p, sim::as_get_txs_proof) {
+            Some(r) => r,
+            None => return false,
+        };
+        let server = self.peers[i].server.clone();
+        let msg = server.txs_proof(&sim.chain, &req);
+        let hs: Vec<i64> = req
+            .tx_hashes()
+            .into_iter()
+            .map(|h| sim.chain.tx_id_of(&h).map(|t| t as i64 + 1).unwrap_or(-1))
+            .collect();
+        let on_chain = server.on_chain(&sim.chain, &req.last_hash()).is_some();
+        let args = json!({"p": pname(p), "last": hid(&sim.chain, &req.last_hash()), "hs": hs, "tip": server.tip + 1,
+            "onChain": on_chain, "kind": "honest"});
+        sim.step("TxsProof", args, |c| c.deliver(Proto::Lc, p, msg.as_bytes()));
+        true
+    }
+
+    /// Answers one outstanding GetBlocks: delivers the blocks one by one (in the given order).
+    pub fn answer_blocks(&mut self, sim: &mut Sim, i: usize, reverse: bool) -> bool {
+        let p = self.peers[i].idx;
+        let req = match sim.take_request(p, sim::as_get_blocks) {
+            Some(r) => r,
+            None => return false,
+        };
+        let server = self.peers[i].server.clone();
+        let mut msgs = server.blocks(&sim.chain, &req);
+        if reverse {
+            msgs.reverse();
+        }
+        for m in msgs {
+            let b = match m.to_enum() {
+                ckb_types::packed::SyncMessageUnion::SendBlock(sb) => hid(&sim.chain, &sb.block().header().calc_header_hash()),
+                _ => -1,
+            };
+            let args = json!({"p": pname(p), "b": b, "body": "true"});
+            sim.step("Block", args, |c| c.deliver(Proto::Sync, p, m.as_bytes()));
+        }
+        true
+    }
+
+    /// cmd: "all" | "partial" | "delete"; list of (script id 0-based, is_type, block_number)
+    pub fn set_scripts(&mut self, sim: &mut Sim, cmd: &str, list: &[(usize, bool, u64)]) {
+        let scripts: Vec<RpcScriptStatus> = list
+            .iter()
+            .map(|(sid, is_type, n)| RpcScriptStatus {
+                script: sim.chain.scripts[*sid].clone().into(),
+                script_type: if *is_type { RpcScriptType::Type } else { RpcScriptType::Lock },
+                block_number: (*n).into(),
+            })
+            .collect();
+        let command = match cmd {
+            "all" => Some(SetScriptsCommand::All),
+            "partial" => Some(SetScriptsCommand::Partial),
+            "delete" => Some(SetScriptsCommand::Delete),
+            _ => None,
+        };
+        let largs: Vec<Value> = list
+            .iter()
+            .map(|(sid, is_type, n)| json!([2 * (*sid as i64 + 1) + if *is_type { 1 } else { 0 }, n]))
+            .collect();
+        let args = json!({"cmd": cmd, "list": largs});
+        sim.step("SetScripts", args, |c| {
+            let rpc = c.rpc_filter();
+            crate::verif::client::guard(|| {
+                rpc.set_scripts(scripts, command).expect("set_scripts");
+            })
+        });
+    }
+}
